@@ -13,7 +13,9 @@ io.Reader `Src` and io.Writer `Sink`).  Vocabulary (`Netpoll/AdapterLemmas.lean`
                            negative count with nil error ↦ "negative count");
 * `gotOf l (k, e)`       – the number of bytes that call puts into a buffer of length `l`;
 * `WGood w`, `wspec`     – writer invariant; the Writer interface as a function of the calls alone;
-* `WInContract w ops`    – every `MallocAck n` of the sequence has `n ≤ MallocLen()` when it is made;
+* `WInContract w ops`    – every call of the sequence respects the caller-side clauses of the C01 `Contract` when it
+                           is made: `MallocAck n` has `n ≤ MallocLen()`, `Malloc n` is filled with exactly `n` bytes
+                           (`d.length = n.toNat`), `WriteBinary p` has `len(p) ≤ cap(p)`;
 * `QGood`, `IOState`     – the buffer shared by an ioWriter and an ioReader, with ghost history.
 
 All theorems hold for every byte type, every stream function, every script, every `block4k` and every operation
@@ -219,14 +221,16 @@ omit [DecidableEq α] in
 theorem C16_writer_init (script : List (Nat × IOErr)) : WGood ({ sink := { script := script } } : ZCWriter α) :=
   WGood.init script
 
-/-- one in-contract Writer call keeps the invariant and acts on (flushed stream, pending bytes) as the interface says -/
+/-- one in-contract Writer call keeps the invariant and acts on (flushed stream, pending bytes) as the interface says.
+`WContract` holds the legitimate caller obligations of the C01 `Contract`: `n ≤ MallocLen()` for `MallocAck n`,
+`d.length = n.toNat` for the data written into `Malloc n`'s slice, `len(p) ≤ cap(p)` for `WriteBinary p`. -/
 theorem C16_writer_step {w : ZCWriter α} (hw : WGood w) (op : WOp α) (hc : WContract w op) :
     WGood (w.step op).1 ∧
     ((w.step op).1.submitted, (w.step op).1.q.pendingBytes) = wspec (w.submitted, w.q.pendingBytes) op :=
   wstep_ok hw op hc
 
-/-- For every sink (any pattern of short writes and errors) and every in-contract sequence of Writer calls, at every
-point: what the sink has received followed by what is flushed-and-still-buffered is exactly the stream the caller has
+/-- For every sink (any pattern of short writes and errors) and every in-contract sequence of Writer calls
+(`WInContract`: the caller-side clauses of the C01 `Contract`, see `C16_writer_step`), at every point: what the sink has received followed by what is flushed-and-still-buffered is exactly the stream the caller has
 flushed so far (`(ops.foldl wspec _).1`, a function of the calls alone) – so across successive Flushes the sink gets
 that stream once and in order; the pending entries are exactly what was written since the last Flush; flushed entries
 precede pending ones; and every LinkBuffer call was inside the C01 contract. -/
@@ -308,7 +312,8 @@ theorem C16_callQ_def (q : Q α) (c : Bool) (op : Op α) :
 
 /-- For every source / sink script and every call sequence (writer: inside its own contract), every `specStep` the
 adapters performed had `Contract = true` – e.g. `MallocAck num` in `fill` has `num ≤ MallocLen` because a source
-never returns more than `len(p)`, and the reads see a flushed prefix. `Len()` / `MallocLen()` observations need only
+never returns more than `len(p)`, `Malloc(block4k)` is filled with exactly `block4k` bytes (`pad_length`), no
+adapter ever Appends (`appSinceFlush = false` is part of the invariants), and the reads see a flushed prefix. `Len()` / `MallocLen()` observations need only
 a live buffer. Hence the C01 refinement theorem applies to the LinkBuffer underneath. -/
 theorem C16_contract [Inhabited α] (block4k : Nat) (stream : Nat → α) (rscript : List (Int × IOErr))
     (rops : List (ROp α)) (wscript : List (Nat × IOErr)) (wops : List (WOp α))
